@@ -224,16 +224,20 @@ func c06Pair(c *Case, a *c06Acc, fam string, env *c06Env, sites []c06Site, src s
 	c06Features(a, "constructs_in_accepted_expressions", base.expr)
 	c.Logf("G accepts %s : %s  (%d loosenings)", src, base.Ty, len(sites))
 	effective := 0
+	dynIndex := c06HasDynIndex(base.expr)
 	for _, s := range sites {
+		if s.Mode == c06MapStrObj && dynIndex {
+			// obj[<expression>] is any for a closed object but string for {string => string}:
+			// for this form the replacement is not a loosening
+			continue
+		}
 		lo := env.loosen(s)
 		got := c06Run(lo, src)
 		a.Eval(1)
 		a.Count("loosened_runs", 1)
-		kind := "to-any"
-		if s.Open {
-			kind = "open-object"
-			a.Count("loosened_runs_open_object", 1)
-		} else {
+		kind := c06ModeNames[s.Mode]
+		a.Count("loosened_runs_"+kind, 1)
+		if s.Mode == c06ToAny {
 			a.SetAdd("kinds_replaced_by_any", c06KindWord(s.Was))
 		}
 		if got.Ty != base.Ty {
@@ -273,6 +277,21 @@ func c06Pair(c *Case, a *c06Acc, fam string, env *c06Env, sites []c06Site, src s
 	if sample {
 		c.Sample(map[string]interface{}{"level": "api", "G": env.String(), "e": src, "type": base.Ty, "loosenings": len(sites), "changing_result_type": effective})
 	}
+}
+
+// c06HasDynIndex: does the expression index anything with a non-literal key?
+func c06HasDynIndex(e actionlint.ExprNode) bool {
+	found := false
+	actionlint.VisitExprNode(e, func(n, _ actionlint.ExprNode, entering bool) {
+		if ia, ok := n.(*actionlint.IndexAccessNode); ok && entering {
+			switch ia.Index.(type) {
+			case *actionlint.StringNode, *actionlint.IntNode, *actionlint.FloatNode:
+			default:
+				found = true
+			}
+		}
+	})
+	return found
 }
 
 // c06FnResult: "a function result is typed any instead of having a specific type". Every call of
@@ -349,7 +368,7 @@ var c06GridTemplates = []string{
 	"toJSON($)", "toJSON($.a)", "fromJSON($)", "fromJSON($.a).x", "fromJSON($)[0].*", "hashFiles($)", "hashFiles($.a, $.b)", "hashFiles('x', $)",
 	"$.a && $.b || $", "$.a.* && $.a.a", "$.* && $.a", "$.*.a && $[0]",
 	"inputs.o[$.a || 'x']", "inputs.l[$.a || 0]", "inputs.o[$ && 'x']", "inputs.l[inputs.n && $]", "join($ || inputs.l)", "startsWith($ || 'x', 'y')", "($.a || inputs.n) < 3",
-	"(inputs.o || $).a", "(inputs.o || $).b", "(inputs.l || $)[0].a", "(inputs.l || $.a)[0].a", "(inputs.s || $).a", "(inputs.n || $)[0]", "(inputs.b || $).a", "(null || $).a", "(inputs.so && $).b",
+	"(inputs.o || $).a", "(inputs.o || $).b", "($ && inputs.o).a", "($ || inputs.o).b", "($.a || inputs.o).a", "($.a || inputs.o).b", "($.a && inputs.so).b", "(inputs.o && $ || inputs.so).b", "(inputs.l || $)[0].a", "(inputs.l || $.a)[0].a", "(inputs.s || $).a", "(inputs.n || $)[0]", "(inputs.b || $).a", "(null || $).a", "(inputs.so && $).b",
 	"join(inputs.n && inputs.l || $)", "(inputs.s && inputs.o || $).a", "(!inputs.s || $).a",
 	"(inputs.la || $).* && inputs.la.x", "($ || inputs.la).* && inputs.la.x", "(inputs.la || $.a).*.x && inputs.la.x",
 }
@@ -403,7 +422,7 @@ func c06GridEnv(t *c06Ty, atRoot int) *c06Env {
 // ---------------------------------------------------------------------------
 
 func runC06(r *Run) {
-	r.Rule = "level api: (G, e) pairs with G = object types for matrix/steps/needs/inputs/secrets/jobs (+ workflow_dispatch inputs) given to a fresh ExprSemanticsChecker and e a type-directed expression; for every pair accepted under G the checker is re-run under EVERY single loosening of G (each non-any type occurrence -> any, each closed object -> open). Families: grid = all types of nesting depth <= 2 over {any,null,number,bool,string} x fixed expression templates (exhaustive), random = generated environments (depth <= 3) x generated expressions. level lint: generated clean workflows (matrix rows/include, dispatch inputs, popular action outputs, job outputs, local reusable workflow/action) re-linted with one literal definition replaced by a dynamic or unknown one. Non-trivial = distinct (G, e) resp. (workflow, replacement) whose antecedent held (no diagnostic before loosening)."
+	r.Rule = "level api: (G, e) pairs with G = object types for matrix/steps/needs/inputs/secrets/jobs (+ workflow_dispatch inputs) given to a fresh ExprSemanticsChecker and e a type-directed expression; for every pair accepted under G the checker is re-run under EVERY single loosening of G (each non-any type occurrence -> any, each closed object -> open with its properties kept, each object -> open object without known properties, each closed all-string object -> {string => string}). Families: grid = all types of nesting depth <= 2 over {any,null,number,bool,string} x fixed expression templates (exhaustive), random = generated environments (depth <= 3) x generated expressions. level lint: generated clean workflows (matrix rows/include, dispatch inputs, popular action outputs, job outputs, local reusable workflow/action) re-linted with one literal definition replaced by a dynamic or unknown one. Non-trivial = distinct (G, e) resp. (workflow, replacement) whose antecedent held (no diagnostic before loosening)."
 	r.Assume("the checker is given every context and special function as available (SetContextAvailability / SetSpecialFunctionAvailability); availability is independent of the typing environment")
 	r.Assume("environments respect the documented ObjectType invariant (properties of a map object are assignable to its mapped type)")
 	r.Assume("verdicts are functions of (G, e): ObjectType.Merge folds new members into a non-any mapped type in map iteration order (Merge is not associative), so merges of a map object with an object adding two or more members are kept out of the generated environments/expressions, and a disagreement is reported only if it reproduces in three more identical runs")
@@ -419,7 +438,9 @@ func runC06(r *Run) {
 		defer a.flush(c)
 		roots := []int{-1}
 		if t.K == c06Obj {
-			roots = append(roots, 1, 4) // the type as the whole steps / secrets context
+			// the type as the whole steps / secrets context, and as `inputs` merged with closed
+			// workflow_dispatch inputs (UpdateInputs then UpdateDispatchInputs)
+			roots = append(roots, 1, 4, 3)
 		}
 		for _, root := range roots {
 			env := c06GridEnv(t, root)
@@ -427,6 +448,9 @@ func runC06(r *Run) {
 			subj := "matrix.v"
 			if root >= 0 {
 				subj = c06CtxNames[root]
+			}
+			if root == 3 {
+				env.Dispatch = c06ObjOf(nil, "zz", c06TStr)
 			}
 			sites := env.sites()
 			for ti, tpl := range c06GridTemplates {
@@ -494,7 +518,7 @@ func runC06(r *Run) {
 	if r.Counter("function_result_loosenings") < 200 {
 		r.Inconclusive("too few function-result loosenings (fromJSON literal -> fromJSON of an unknown string)")
 	}
-	if r.Counter("loosened_runs_changing_result_type") < 1000 || r.Counter("loosened_runs_open_object") < 1000 {
+	if r.Counter("loosened_runs_changing_result_type") < 1000 || r.Counter("loosened_runs_open-object") < 1000 || r.Counter("loosened_runs_object-to-open-empty") < 1000 || r.Counter("loosened_runs_string-object-to-string-map") < 200 {
 		r.Inconclusive("too few loosenings had an observable effect / opened an object")
 	}
 	var missing []string
